@@ -974,10 +974,14 @@ func (s *sim) finish() {
 	if !s.waiterStarted && c.Bool(500, "late-waiter") {
 		s.stepWaiter()
 	}
-	// everything parked continues now
-	s.beginStep("release-all", false)
-	s.y.shutdown(s.disconnectFlagged())
-	s.endStep("")
+	// everything parked continues now: no new parks, and one goroutine at a
+	// time (releasing two at once would be a burst)
+	s.y.disarm()
+	for s.y.nParked() > 0 {
+		s.beginStep("release", false)
+		site := s.y.release(0, s.disconnectFlagged())
+		s.endStep("%s (final)", site)
+	}
 	if s.discStep < 0 {
 		// every caller is stuck and nothing disconnected the peer: the driver
 		// itself pulls the plug (only reachable when calls never returned)
